@@ -98,6 +98,14 @@ func (c *Ctx) RequireReached(rule, key string, fn *FuncInfo, scope *ast.BlockStm
 	exits := newVset(len(u.atoms))
 	frame := &loopFrame{isLoop: true, breaks: newVset(len(u.atoms)), continues: newVset(len(u.atoms))}
 	w := &walker{e: e, u: u, sc: e.fnScope(), cutStmt: cut, exits: &exits, frames: []*loopFrame{frame}}
+	// a return that reports failure abandons the operation: what it skipped does not matter
+	if sig := sigOfBody(fn, innermostBody(fn, target)); sig != nil && errResultIndex(sig) >= 0 {
+		info := fn.Info()
+		w.failingExit = func(r *ast.ReturnStmt) bool {
+			ok, known := isSuccessReturn(info, sig, r)
+			return known && !ok
+		}
+	}
 	end := w.stmts(scope.List, u.valid.clone())
 	if e.undecided != "" {
 		return c.Undec(rule, key, c.P.Pos(target), fn.Key(), desc, "unsupported control flow: "+e.undecided)
@@ -258,4 +266,33 @@ func (c *Ctx) ResultOnlyUnderF(rule, what string, fn *FuncInfo, idx int, val boo
 		})
 	}
 	return n
+}
+
+// RequireAtEndF is RequireAtEnd with the requirement built from the function's own syntax.
+func (c *Ctx) RequireAtEndF(rule, key string, fn *FuncInfo, scope *ast.BlockStmt, desc string, build func(e *FactEngine) (*Formula, error)) *Obligation {
+	desc += " at the end of the block"
+	if len(scope.List) == 0 {
+		return c.Undec(rule, key, c.P.Pos(scope), fn.Key(), desc, "empty block")
+	}
+	last := scope.List[len(scope.List)-1]
+	e := NewFactEngine(c.P, fn)
+	f, err := build(e)
+	if err != nil {
+		return c.Undec(rule, key, c.P.Pos(scope), fn.Key(), desc, err.Error())
+	}
+	u, err := e.newUniverse(f, scope, last)
+	if err != nil {
+		return c.Undec(rule, key, c.P.Pos(scope), fn.Key(), desc, err.Error())
+	}
+	w := &walker{e: e, u: u, sc: e.fnScope()}
+	end := w.stmts(scope.List, u.valid.clone())
+	if e.undecided != "" {
+		return c.Undec(rule, key, c.P.Pos(scope), fn.Key(), desc, "unsupported control flow: "+e.undecided)
+	}
+	for v := 0; v < 1<<uint(len(u.atoms)); v++ {
+		if end.has(v) && !evalFormula(f, u, v) {
+			return c.Bad(rule, key, c.P.Pos(last), fn.Key(), desc, "the block can end with: "+u.describe(v))
+		}
+	}
+	return c.OK(rule, key, c.P.Pos(last), fn.Key(), desc)
 }
